@@ -27,8 +27,9 @@ Fixpoint stmt_uses (x : name) (st : stmt) : bool :=
   | SWhile lvs ss _ =>
       existsb (fun lv => expr_uses x (t_e1 lv) || expr_uses x (t_e2 lv)) lvs || go ss
   end.
-Fixpoint stmts_use (x : name) (ss : list stmt) : bool :=
-  match ss with [] => false | s :: r => stmt_uses x s || stmts_use x r end.
+Definition stmts_use (x : name) : list stmt -> bool :=
+  fix go (ss : list stmt) : bool :=
+    match ss with [] => false | s :: r => stmt_uses x s || go r end.
 
 (* optimizable_while_loop_uses_induction_var *)
 Definition owl_uses_iv (o : owl) : bool :=
